@@ -968,3 +968,11 @@ v("C13", "uncompress-leaf-not-appended", "fire", F,
 v("C13", "silent-uncompress-elif", "silent", F,
   "            if (mask == \"B\"):\n                f.append(self._fillempty(shape, level + 1))",
   "            elif (mask == \"B\"):\n                f.append(self._fillempty(shape, level + 1))", None)
+v("C20", "codec-ctor-drops-cumulative-payloads", "fire", "codec/tensor_codec.py",
+  "        self.cumulative_payloads = cumulative_payloads\n", "", "C20.R9")
+v("C20", "bitvector-ctor-no-base-init", "fire", "codec/formats/bitvector.py",
+  "    def __init__(self):\n        CompressionFormat.__init__(self)\n        self.occupancies = list()",
+  "    def __init__(self):\n        self.occupancies = list()", "C20.R9")
+v("C20", "silent-ctor-super-init", "silent", "codec/formats/bitvector.py",
+  "    def __init__(self):\n        CompressionFormat.__init__(self)\n        self.occupancies = list()",
+  "    def __init__(self):\n        super().__init__()\n        self.occupancies = list()", None)
